@@ -261,9 +261,19 @@ type serverSock struct {
 	FailWrite func(dst net.Addr, n int) error
 }
 
+// SetFailWrite installs fault injection for writes towards clients.
+func (s *serverSock) SetFailWrite(f func(dst net.Addr, n int) error) {
+	s.mu.Lock()
+	s.FailWrite = f
+	s.mu.Unlock()
+}
+
 func (s *serverSock) WriteTo(b []byte, dst net.Addr) (int, error) {
-	if s.FailWrite != nil {
-		if err := s.FailWrite(dst, len(b)); err != nil {
+	s.mu.Lock()
+	fw := s.FailWrite
+	s.mu.Unlock()
+	if fw != nil {
+		if err := fw(dst, len(b)); err != nil {
 			return 0, err
 		}
 	}
